@@ -37,16 +37,23 @@ VALUES = {
 }
 
 
-def native_like(host):
-    """object that passes isinstance(x, types.CodeType) and has exactly the data attributes of a real code object of `host`"""
+def native_like(host, z=None):
+    """object that passes isinstance(x, types.CodeType) and has exactly the data attributes of a real code object of `host`;
+    field number z (if any) holds the falsy value of its type ('' / 0 / () / b'') instead of its marker.
+    Returns (object, surface, values)"""
     surface = [a for a in oracles.opcode_dump(host)["code_dir"] if a in VALUES]
+    values = dict(VALUES)
+    if z is not None:
+        for i, a in enumerate(surface):
+            if z == i:
+                values[a] = type(VALUES[a])()
 
     class Native(object):
         __class__ = types.CodeType
 
     n = Native()
     for a in surface:
-        object.__setattr__(n, a, VALUES[a])
+        object.__setattr__(n, a, values[a])
     # codeType2Portable tests isinstance(code, types.CodeType); CrossHair's isinstance ignores the __class__ override,
     # so the `types` name inside xdis.codetype is rebound to a shim whose CodeType is this class (stub, harness only)
     import xdis.codetype as CT
@@ -54,7 +61,7 @@ def native_like(host):
     class _TypesShim(object):
         CodeType = Native
     CT.types = _TypesShim
-    return n, surface
+    return n, surface, values
 
 
 def ctor_params(host):
@@ -72,9 +79,11 @@ def ctor_params(host):
 def portable_ob(host):
     real_table = "co_linetable" if host >= (3, 10) else "co_lnotab"
 
-    def body(micro):
+    nsurf = len([a for a in oracles.opcode_dump(host)["code_dir"] if a in VALUES])
+
+    def body(micro, z):
         import xdis.codetype as CT
-        nat, surface = native_like(host)
+        nat, surface, values = native_like(host, z)
         vt = (host[0], host[1], micro)
         p = CT.codeType2Portable(nat, vt)
         assert type(p) is CT.portableCodeType(vt), "class %s for host %r" % (type(p).__name__, vt)
@@ -82,23 +91,25 @@ def portable_ob(host):
             if a in ("co_lnotab", "co_linetable"):
                 continue
             assert hasattr(p, a), "portable object lacks %s" % a
-            assert getattr(p, a) == VALUES[a], "field %s: %r != %r" % (a, getattr(p, a), VALUES[a])
+            assert getattr(p, a) == values[a], "field %s: %r != %r" % (a, getattr(p, a), values[a])
         got = getattr(p, real_table, None)
-        assert got == VALUES[real_table], "line table: portable.%s = %r, the host's real table (%s) is %r" % (
-            real_table, got, real_table, VALUES[real_table])
+        assert got == values[real_table], "line table: portable.%s = %r, the host's real table (%s) is %r" % (
+            real_table, got, real_table, values[real_table])
 
-    return Ob(id="C16.portable.%d%d" % host, prop="C16", params=[("micro", (0, 30))], body=body, funcs=FUNCS,
+    return Ob(id="C16.portable.%d%d" % host, prop="C16", params=[("micro", (0, 30)), ("z", (0, nsurf))], body=body, funcs=FUNCS,
               region="portable.%d%d" % host, skeleton="codeType2Portable on the %d.%d attribute surface" % host,
-              bound="micro 0..30; distinct marker values in every field", timeout=60, oracle="same-named field; real line-table attribute")
+              bound="micro 0..30; distinct marker values in every field, one field (symbolic choice z, or none) at the falsy value of its type",
+              timeout=60, oracle="same-named field; real line-table attribute")
 
 
 def to_native_ob(host):
     params_order = ctor_params(host)
+    nsurf = len([a for a in oracles.opcode_dump(host)["code_dir"] if a in VALUES])
 
-    def body(micro):
+    def body(micro, z):
         import xdis.codetype as CT
         from xdis.codetype import code30, code38, code310, code311
-        nat, surface = native_like(host)
+        nat, surface, values = native_like(host, z)
         vt = (host[0], host[1], micro)
         p = CT.codeType2Portable(nat, vt)
         calls = []
@@ -124,21 +135,22 @@ def to_native_ob(host):
         assert len(args) == len(params_order), "constructor got %d arguments, the %d.%d constructor takes %d (%r)" % (
             len(args), host[0], host[1], len(params_order), params_order)
         for name, val in zip(params_order, args):
-            want = VALUES[name]
+            want = values[name]
             if name in ("co_lnotab", "co_linetable"):
-                want = VALUES["co_linetable" if host >= (3, 10) else "co_lnotab"]
+                want = values["co_linetable" if host >= (3, 10) else "co_lnotab"]
             assert val == want, "constructor slot %s received %r, field value is %r" % (name, val, want)
 
-    return Ob(id="C16.to_native.%d%d" % host, prop="C16", params=[("micro", (0, 30))], body=body, funcs=FUNCS,
+    return Ob(id="C16.to_native.%d%d" % host, prop="C16", params=[("micro", (0, 30)), ("z", (0, nsurf))], body=body, funcs=FUNCS,
               region="to_native.%d%d" % host, skeleton="to_native() with the real %d.%d constructor order %r" % (host + (params_order,)),
-              bound="micro 0..30", timeout=60, oracle="constructor signature of the real interpreter")
+              bound="micro 0..30; one field (symbolic choice z, or none) at the falsy value of its type", timeout=60,
+              oracle="constructor signature of the real interpreter")
 
 
 def replace_ob(host, field):
     def body(v, micro):
         import copy
         import xdis.codetype as CT
-        nat, surface = native_like(host)
+        nat, surface, _values = native_like(host)
         p = CT.codeType2Portable(nat, (host[0], host[1], micro))
         before = {a: copy.deepcopy(getattr(p, a)) for a in vars(p) if a.startswith("co_")}
         newval = v if isinstance(VALUES[field], int) else (VALUES[field] + VALUES[field])
@@ -239,7 +251,7 @@ def generate(tier, seed):
         obs.append(portable_ob(h))
         obs.append(to_native_ob(h))
         obs.append(real_ob(h))
-        nat, surface = native_like(h)
+        nat, surface, _v = native_like(h)
         for f in surface:
             if f == ("co_lnotab" if h >= (3, 10) else "co_linetable"):
                 continue
